@@ -149,11 +149,10 @@ class FloatValidatorBase(FieldValidator[_P, float], Generic[_P, _C], metaclass=A
             ValueError: Value cannot be precisely represented with this datatype
         """
 
-        # Note: This may not be worth it since this is a rare overflow case.
+        # Check every element on its own: max()/min() can not be used here because
+        # a NaN anywhere in the sequence hides its neighbours from them.
         try:
-            if math.isinf(self._ctype(max(value)).value) or math.isinf(
-                self._ctype(min(value)).value
-            ):
+            if any(math.isinf(self._ctype(v).value) for v in value):
                 raise ValueError(
                     f"{value} contains value(s) that can not be represented as a {type(self).__name__}"
                 )
